@@ -111,6 +111,7 @@ type solveOpts struct {
 	portfolio bool
 	dumpDir   string
 	noVacuity bool
+	crossCheck bool // thorough: every solver-discharged obligation is also put to the other solvers
 }
 
 // solve discharges the obligations of one function.
@@ -218,6 +219,32 @@ func (e *Enc) solve(opt solveOpts) {
 					o.Verdict = "vacuous"
 					o.Output = "program point unreachable under the assumptions"
 				}
+			}
+		}
+	}
+	if opt.crossCheck {
+		var proved []*Oblig
+		for _, o := range pend {
+			if o.Verdict == "unsat" && o.Family != "VAC" && (o.Solver == "z3-new" || o.Solver == "z3" || o.Solver == "cvc5") {
+				proved = append(proved, o)
+			}
+		}
+		for _, cfg := range solvers[1:] {
+			clones := make([]*Oblig, len(proved))
+			for i, o := range proved {
+				c := *o
+				c.Verdict, c.Solver, c.Output = "", "", ""
+				clones[i] = &c
+			}
+			e.runBatch(cfg, clones, off, opt.retryMs)
+			for i, c := range clones {
+				switch c.Verdict {
+				case "unsat":
+					proved[i].crossAgree++
+				case "sat":
+					proved[i].crossDisagree = append(proved[i].crossDisagree, cfg.name)
+				}
+				proved[i].crossAsked++
 			}
 		}
 	}
